@@ -3,26 +3,42 @@
   about the definitions of Model/UtxoOps.lean and Model/ChainTree.lean that the oracle executes and the
   harness compares with lib/chain + lib/utxo after every delivery.
 
-  Proved here: the chain-level one-block corollary `extend_then_undo`, the record-level core lemma `undo_commit` (with its hypothesis in the executable form the oracle
-  checks on every connected block), the output-list algebra behind it, exactness/asymmetry of the work
-  comparison, the delivery decision logic (known block, unknown parent), and the counterexample showing that the
-  tie-break after a failed reorganisation is NOT "first seen" (known finding, reproduced on the real code).
+  Proved here:
+    * `commitTxs_valid` — every block `commitTxs` accepts yields changes satisfying `ValidChanges` (invariant of the
+      input loop), hence `undo_commitTxs`: committing and undoing ANY accepted block restores every record
+      (no side hypothesis besides BIP30 freshness of the block's txids);
+    * the record-level core lemma `undo_commit` and the output-list algebra behind it;
+    * the chain-level invariant `PathOK` (Spec/ChainReplay: unspent map = replay of the active branch as a partial
+      function, tip/LastBlockHeight/tree links/stored blocks consistent, undo file of every active height above the
+      floor = undo data of the active block) holds initially and is preserved by every primitive step that touches the
+      unspent map: CommitBlock's tip extension (`replay_inv_extend`), UndoLastBlock (`replay_inv_undoLast`, incl.
+      "does not panic"), the disconnect loop of MoveToBlock (`failed_reorg_no_residue_partial`), one successful
+      iteration of ParseTillBlock (`replay_inv_connect`); DeleteBranch does not touch map / undo files / tip
+      (`deleteBranch_keeps_map`);
+    * decision logic of deliveries (known block, orphan, extension accepted / rejected), exactness/asymmetry of the
+      work comparison, and the counterexample showing that the tie-break after a failed reorganisation is NOT
+      "first seen" (known finding, reproduced on the real code).
 
-  -- OPEN: commitTxs_valid :
-  --   commitTxs u h (reward h) tr txs = .ok ch → (∀ t ∈ txs.map (·.txid), u.get t = none) → ValidChanges u (txs.map (·.txid)) ch
-  --   (invariant of the input loop: delete list and undo list stay aligned).  Until it is proved the hypothesis of
-  --   `undo_commit` is discharged per run by `validChangesB` inside the oracle (ghost counter `vcBad`).
   -- OPEN: reorg_inv : ∀ deliveries, Inv (run deliveries)  with
-  --   Inv c := (∀ t v, abs c.utxo t v = replay (activePath c) t v) ∧ tip is a maximum-work valid leaf ∧
-  --            undo file of every active height within the unwind window = undo data of the active block there
-  --   (induction over deliveries; needs undo_commit + commitTxs_valid + an invariant of moveTo/parseTill).
-  --   NOTE the "first seen" part of the property is false for the model and the code, see
-  --   `tie_after_failed_reorg_counterexample`.
-  -- OPEN: failed_reorg_no_residue (corollary of reorg_inv).
+  --   Inv c := (∃ fl path, PathOK c fl path) ∧ tip is a maximum-work valid leaf (first seen among equals)
+  --   What is missing for the first conjunct: the composition of the proved steps through the mutual recursion
+  --   moveTo / parseTill / afterFail inside `deliver` — it needs tree well-formedness (unique ids, child height =
+  --   parent height + 1, childs ↔ parent consistency) to show (a) that FindPathTo's next block hangs below the tip at
+  --   height LastBlockHeight+1, (b) that the path ids differ from the common block / from a new block's id,
+  --   (c) that DeleteBranch's subtree is disjoint from the active path (keeps `Linked`), and (d) BIP30 freshness of
+  --   every stored block (an assumption on the delivered blocks); and connects deeper than UnwindBufLen below the
+  --   target (no undo data written) are outside `replay_inv_connect`.  The second conjunct (most work; the documented
+  --   first-seen caveats are the two known findings) is not proved at all: it is covered by the correspondence run
+  --   with the independent reference predicate only.
+  -- OPEN: failed_reorg_no_residue (full: after a reorganisation that fails at its n-th block the map equals the
+  --   replay of the branch the node ends on) — proved part: `failed_reorg_no_residue_partial` + `replay_inv_connect`
+  --   + `deleteBranch_keeps_map`; missing: the same composition as for reorg_inv.
 -/
 import GocoinV.Model.ChainTree
 import GocoinV.Proofs.C06Utxo
 import GocoinV.Proofs.C06Chain
+import GocoinV.Proofs.C06Commit
+import GocoinV.Proofs.C06Path
 namespace GocoinV.Props.C06
 open GocoinV.UtxoOps GocoinV.ChainTree
 
@@ -50,6 +66,23 @@ theorem undo_commit_checked (u : DB) (txids : List Nat) (ch : Changes)
     (h : validChangesB u txids ch = true) :
     ∀ k, (undoBlock (commit u ch) txids ch.undo).get k = u.get k :=
   undo_commit u txids ch (validChangesB_sound u txids ch h)
+
+/-- **`commitTxs` produces valid changes.** Whenever `commitTxs` accepts a block's transactions on the unspent map `u`
+(for any height, reward and trusted flag) and none of the block's txids is in `u` (BIP30), the delete list has distinct
+keys that are all present in `u`, the undo data is exactly the spent outputs of exactly those records (delete list and
+undo list aligned), and every added record belongs to the block — the hypothesis of `undo_commit`. -/
+theorem commitTxs_valid (u : DB) (h rwd : Nat) (tr : Bool) (txs : List Tx) (ch : Changes)
+    (hok : commitTxs u h rwd tr txs = .ok ch) (hfresh : ∀ t ∈ txs.map (·.txid), u.get t = none) :
+    ValidChanges u (txs.map (·.txid)) ch :=
+  commitTxs_validChanges u h rwd tr txs ch hok hfresh
+
+/-- **Disconnecting any accepted block restores the map** — `undo_commit` without a side hypothesis on the changes:
+for every block `commitTxs` accepts, committing its changes and then running `UndoBlockTxs` with the undo data it
+produced gives back, under every key, exactly the record that was there before. -/
+theorem undo_commitTxs (u : DB) (h rwd : Nat) (tr : Bool) (txs : List Tx) (ch : Changes)
+    (hok : commitTxs u h rwd tr txs = .ok ch) (hfresh : ∀ t ∈ txs.map (·.txid), u.get t = none) :
+    ∀ k, (undoBlock (commit u ch) (txs.map (·.txid)) ch.undo).get k = u.get k :=
+  undo_commit u _ ch (commitTxs_valid u h rwd tr txs ch hok hfresh)
 
 /-- Partially spent record: merging the undo record (spent outputs only) into what `del` left gives the original
 output list, for any spent-flag list. -/
@@ -121,10 +154,11 @@ every key, the previous unspent record. -/
 theorem extend_then_undo (c : Chain) (b : Block) (h : Nat) (ch : Changes) (n : Node)
     (htip : c.tip = b.parent)
     (hok : commitTxs c.utxo h (reward h) false b.txs = .ok ch)
-    (hv : ValidChanges c.utxo (b.txs.map (·.txid)) ch)
+    (hfresh : ∀ t ∈ b.txs.map (·.txid), c.utxo.get t = none)
     (hn : getNode (commitBlock c b h).1 b.id = some n) (hp : n.parent = b.parent) :
     ∃ c2, undoLast (commitBlock c b h).1 = .ok c2 ∧ c2.tip = c.tip ∧
       (∀ k, c2.utxo.get k = c.utxo.get k) ∧ c2.lastHeight = h - 1 := by
+  have hv := commitTxs_valid c.utxo h (reward h) false b.txs ch hok hfresh
   have hid := getNode_id hn
   rw [commitBlock_ok_eq c b h ch htip hok] at hn ⊢
   have hst := cbt_store (preCommit c b) h true (b.txs.map (·.txid)) ch
@@ -140,6 +174,77 @@ theorem extend_then_undo (c : Chain) (b : Block) (h : Nat) (ch : Changes) (n : N
     simp only [hf.1]
     exact undo_commit_get c.utxo _ ch hv k
   · simp only [hf.2.1]
+
+-- ------------------------------------------------------------------------------------------ UTXO = replay of the active branch
+
+/-- the invariant holds in the initial state (empty branch, empty map) -/
+theorem replay_inv_init (r bits : Nat) : PathOK (ChainTree.init r bits) 0 [] := init_path r bits
+
+/-- **Tip extension keeps "UTXO = replay".** If the invariant holds for the active branch `path` and a block on the tip
+(its node already added by AcceptHeader, id not on the path) is accepted by `commitTxs` at height |path|+1 with fresh
+txids, then after `CommitBlock` the invariant holds for the branch extended by that block: the unspent map is the
+replay of the longer branch and its undo file is in place. -/
+theorem replay_inv_extend (c : Chain) (fl : Nat) (path : List PE) (h : PathOK c fl path) (b : Block) (ch : Changes)
+    (htip : c.tip = b.parent) (hnode : ∃ n, getNode c b.id = some n ∧ n.parent = b.parent)
+    (hnew : ∀ e ∈ path, e.id ≠ b.id)
+    (hok : commitTxs c.utxo (path.length + 1) (reward (path.length + 1)) false b.txs = .ok ch)
+    (hfresh : ∀ t ∈ b.txs.map (·.txid), c.utxo.get t = none) :
+    PathOK (commitBlock c b (path.length + 1)).1 (max fl (path.length + 1 - UnwindBufLen)) (⟨b.id, b.txs⟩ :: path) :=
+  commitBlock_path c fl path h b ch htip hnode hnew hok hfresh
+
+/-- **UndoLastBlock keeps "UTXO = replay" and cannot panic under the invariant**: tip node, stored block and undo file
+are found, and afterwards the invariant holds for the branch without its tip (map = replay of the shorter branch). -/
+theorem replay_inv_undoLast (c : Chain) (fl : Nat) (e : PE) (rest : List PE) (h : PathOK c fl (e :: rest))
+    (hfl : rest.length + 1 > fl) : ∃ c', undoLast c = .ok c' ∧ PathOK c' fl rest := by
+  obtain ⟨c', h1, h2, _⟩ := undoLast_path c fl e rest h hfl
+  exact ⟨c', h1, h2⟩
+
+/-- **One successful iteration of ParseTillBlock keeps "UTXO = replay".** `parseTill (f+1) c e`, when the next block
+`nx` on the way to `e` hangs below the tip at height |path|+1, is stored, is accepted by `commitTxs` (scripts skipped
+iff stored as trusted) with fresh txids and lies within UnwindBufLen of the target, continues as `parseTill f c' e`
+with a state `c'` that satisfies the invariant for the branch extended by `nx`. -/
+theorem replay_inv_connect (f : Nat) (c : Chain) (fl : Nat) (path : List PE) (h : PathOK c fl path)
+    (e nx : Nat) (last en nxt : Node) (blk : Stored) (ch : Changes)
+    (hne : c.tip ≠ e) (hlast : getNode c c.tip = some last) (hen : getNode c e = some en)
+    (hpath : findPathTo c last en = .ok (some nx)) (hnxt : getNode c nx = some nxt) (htx : nxt.txCount ≠ 0)
+    (hpar : nxt.parent = c.tip) (hh : nxt.height = path.length + 1) (hw : nxt.height + UnwindBufLen ≥ en.height)
+    (hblk : alookup nx c.store = some blk)
+    (hok : commitTxs c.utxo nxt.height (reward nxt.height) blk.trusted blk.txs = .ok ch)
+    (hfresh : ∀ t ∈ blk.txs.map (·.txid), c.utxo.get t = none) :
+    ∃ c', parseTill (f + 1) c e = parseTill f c' e ∧
+      PathOK c' (max fl (path.length + 1 - UnwindBufLen)) (⟨nx, blk.txs⟩ :: path) := by
+  refine ⟨_, parseTill_step f c e nx last en nxt blk ch hne hlast hen hpath hnxt htx hblk hok, ?_⟩
+  have : decide (nxt.height + UnwindBufLen ≥ en.height) = true := by simpa using hw
+  rw [this]
+  exact parseStep_path c fl path h nx nxt blk ch hnxt hpar hh hblk hok hfresh
+
+/-- **A reorganisation's disconnect phase leaves no residue** (proved part of failed_reorg_no_residue). If the
+invariant holds for the active branch `pre ++ post`, where `post` ends in the common block `anc` that MoveToBlock's
+three climbing loops find, then `MoveToBlock` does not panic while disconnecting the blocks `pre`, and continues as
+ParseTillBlock from a state whose unspent map is exactly the replay of `post` (tip = common block, LastBlockHeight =
+|post|, undo files of `post` intact, tree and block store untouched). Together with `replay_inv_connect` (each block
+connected afterwards) and `deleteBranch_keeps_map` (a block that fails) this covers every step of a completed or
+failed reorganisation; their composition through the mutual recursion is the OPEN part. -/
+theorem failed_reorg_no_residue_partial (f : Nat) (c : Chain) (fl : Nat) (pre post : List PE) (dst : Nat)
+    (d lb cur lb2 anc : Node)
+    (h : PathOK c fl (pre ++ post)) (hfl : post.length ≥ fl)
+    (hd : getNode c dst = some d) (hlb : getNode c c.tip = some lb)
+    (h1 : climbChecked c lb.height (d.height + 1) d = .ok (some cur))
+    (h2 : climbChecked c cur.height (lb.height + 1) lb = .ok (some lb2))
+    (h3 : commonAnc c (cur.height + 2) lb2 cur = .ok (some anc))
+    (hanc : anc.id = headId c post) (hne : ∀ e ∈ pre, e.id ≠ anc.id) (hh : lb.height + 1 ≥ pre.length) :
+    ∃ c1, PathOK c1 fl post ∧ c1.nodes = c.nodes ∧ c1.store = c.store ∧
+      moveTo (f + 1) c dst = parseTill f c1 dst := by
+  obtain ⟨c1, hp, hn, hs, _, hm⟩ := moveTo_unwind f c fl pre post dst d lb cur lb2 anc h hfl hd hlb h1 h2 h3 hanc hne hh
+  exact ⟨c1, hp, hn, hs, hm⟩
+
+/-- DeleteBranch (a block that fails when connected, with its descendants) touches neither the unspent map nor the
+undo files, the tip or LastBlockHeight. -/
+theorem deleteBranch_keeps_map (c : Chain) (id : Nat) :
+    (deleteBranch c id).utxo = c.utxo ∧ (deleteBranch c id).undoFiles = c.undoFiles ∧
+    (deleteBranch c id).tip = c.tip ∧ (deleteBranch c id).lastHeight = c.lastHeight := by
+  have := deleteBranch_fields c id
+  exact ⟨this.1, this.2.1, this.2.2.1, this.2.2.2.1⟩
 
 -- ------------------------------------------------------------------------------------------ the tie-break counterexample
 
@@ -199,10 +304,10 @@ def exChanges : Changes :=
 -- the hypotheses of `extend_then_undo` are satisfiable together
 example : exChain.tip = exBlock.parent ∧
     commitTxs exChain.utxo 1 (reward 1) false exBlock.txs = .ok exChanges ∧
-    ValidChanges exChain.utxo (exBlock.txs.map (·.txid)) exChanges ∧
+    (∀ t ∈ exBlock.txs.map (·.txid), exChain.utxo.get t = none) ∧
     getNode (commitBlock exChain exBlock 1).1 exBlock.id =
       some { id := 1, parent := 100, height := 1, bits := easyBits, childs := [], txCount := 1 } :=
-  ⟨by decide, by rfl, validChangesB_sound _ _ _ (by decide), by rfl⟩
+  ⟨by decide, by rfl, fun _ _ => rfl, by rfl⟩
 
 example : ∃ a b : Q, a.gt b = true := ⟨⟨2, 1⟩, ⟨1, 1⟩, by decide⟩
 
@@ -211,5 +316,71 @@ example : ∃ (c : Chain) (b : Block), (getNode c b.id).isSome = true :=
 
 example : ∃ (c : Chain) (b : Block), getNode c b.id = none ∧ getNode c b.parent = none :=
   ⟨ChainTree.init 100 easyBits, { id := 5, parent := 4, bits := 0, txs := [] }, by decide, by decide⟩
+
+-- non-vacuity of the hypotheses of the replay-invariant theorems
+
+
+-- commitTxs_valid / undo_commitTxs: a block that partially spends a two-output record
+example : ∃ (u : DB) (txs : List Tx) (ch : Changes), commitTxs u 2 (reward 2) false txs = .ok ch ∧
+    (∀ t ∈ txs.map (·.txid), u.get t = none) ∧ ch.deled ≠ [] :=
+  ⟨[{ txid := 7, height := 1, coinbase := false, outs := [some ⟨50, "51"⟩, some ⟨60, "00"⟩] }],
+   [cbTx 8, { txid := 9, ins := [{ txid := 7, vout := 0 }], outs := [⟨40, "51"⟩], scriptsOk := true }], _, rfl,
+   by decide, by decide⟩
+
+set_option linter.defProp false in
+def exPath0 : PathOK exChain 0 [] :=
+  ⟨rfl, rfl, trivial, ⟨[], rfl, fun _ => rfl⟩, trivial, trivial⟩
+
+-- replay_inv_extend: all hypotheses hold for exChain / exBlock
+example : PathOK exChain 0 [] ∧ exChain.tip = exBlock.parent ∧
+    (∃ n, getNode exChain exBlock.id = some n ∧ n.parent = exBlock.parent) ∧
+    commitTxs exChain.utxo 1 (reward 1) false exBlock.txs = .ok exChanges ∧
+    (∀ t ∈ exBlock.txs.map (·.txid), exChain.utxo.get t = none) :=
+  ⟨exPath0, by decide, ⟨_, rfl, rfl⟩, rfl, fun _ _ => rfl⟩
+
+-- replay_inv_undoLast: a state with a non-empty active branch above the floor
+example : ∃ (c : Chain) (fl : Nat) (e : PE) (rest : List PE), PathOK c fl (e :: rest) ∧ rest.length + 1 > fl :=
+  ⟨_, _, _, _, replay_inv_extend exChain 0 [] exPath0 exBlock exChanges (by decide) ⟨_, rfl, rfl⟩
+    (by intro e he; cases he) rfl (fun _ _ => rfl), by decide⟩
+
+/-- a1 (id 1) is the tip; b1 (id 2) and b2 (id 3) form a stored side branch -/
+def rxChain : Chain :=
+  { nodes := [{ id := 100, parent := 100, height := 0, bits := easyBits, childs := [1, 2], txCount := 0 },
+              { id := 1, parent := 100, height := 1, bits := easyBits, childs := [], txCount := 1 },
+              { id := 2, parent := 100, height := 1, bits := easyBits, childs := [3], txCount := 1 },
+              { id := 3, parent := 2, height := 2, bits := easyBits, childs := [], txCount := 1 }],
+    root := 100, tip := 1,
+    utxo := [{ txid := 1001, height := 1, coinbase := true, outs := [some ⟨5000000000, "51"⟩] }],
+    store := [(1, { txs := [cbTx 1001], trusted := true }), (2, { txs := [cbTx 1002], trusted := false }),
+              (3, { txs := [cbTx 1003], trusted := false })],
+    undoFiles := [(1, [])], lastHeight := 1 }
+
+set_option linter.defProp false in
+def rxPath : PathOK rxChain 0 ([⟨1, [cbTx 1001]⟩] ++ []) :=
+  ⟨rfl, rfl, ⟨⟨_, rfl, rfl⟩, ⟨_, rfl, rfl⟩, trivial⟩, ⟨_, rfl, fun _ => rfl⟩,
+   ⟨fun _ => ⟨[], _, rfl, rfl, rfl⟩, trivial⟩, ⟨fun u hu t _ => by cases hu; rfl, trivial⟩⟩
+
+-- failed_reorg_no_residue_partial: MoveToBlock(b2) from tip a1, common block = root
+example : ∃ (d lb cur lb2 anc : Node), getNode rxChain 3 = some d ∧ getNode rxChain rxChain.tip = some lb ∧
+    climbChecked rxChain lb.height (d.height + 1) d = .ok (some cur) ∧
+    climbChecked rxChain cur.height (lb.height + 1) lb = .ok (some lb2) ∧
+    commonAnc rxChain (cur.height + 2) lb2 cur = .ok (some anc) ∧
+    anc.id = headId rxChain [] ∧ (∀ e ∈ [(⟨1, [cbTx 1001]⟩ : PE)], e.id ≠ anc.id) ∧ lb.height + 1 ≥ 1 :=
+  ⟨_, _, _, _, _, rfl, rfl, rfl, rfl, rfl, rfl, by decide, by decide⟩
+
+
+/-- rxChain after the disconnect phase: tip = root, empty map -/
+def rxChain0 : Chain := { rxChain with tip := 100, utxo := [], lastHeight := 0 }
+
+-- replay_inv_connect: ParseTillBlock(b2) connects b1 first
+example : PathOK rxChain0 0 [] ∧ ∃ (last en nxt : Node) (blk : Stored) (ch : Changes),
+    rxChain0.tip ≠ 3 ∧ getNode rxChain0 rxChain0.tip = some last ∧ getNode rxChain0 3 = some en ∧
+    findPathTo rxChain0 last en = .ok (some 2) ∧ getNode rxChain0 2 = some nxt ∧ nxt.txCount ≠ 0 ∧
+    nxt.parent = rxChain0.tip ∧ nxt.height = 0 + 1 ∧ nxt.height + UnwindBufLen ≥ en.height ∧
+    alookup 2 rxChain0.store = some blk ∧
+    commitTxs rxChain0.utxo nxt.height (reward nxt.height) blk.trusted blk.txs = .ok ch ∧
+    (∀ t ∈ blk.txs.map (·.txid), rxChain0.utxo.get t = none) :=
+  ⟨⟨rfl, rfl, trivial, ⟨[], rfl, fun _ => rfl⟩, trivial, trivial⟩,
+   _, _, _, _, _, by decide, rfl, rfl, rfl, rfl, by decide, rfl, rfl, by decide, rfl, rfl, fun _ _ => rfl⟩
 
 end GocoinV.Props.C06
